@@ -35,22 +35,6 @@ func answerAsk(d *Driver, kind string, q M) any {
 		hh := h.New()
 		hh.Write(unhx(q["data"].(string)))
 		return M{"bytes": hx(hh.Sum(nil))}
-	case "clientData":
-		// the shape of webauthn.CollectedClientData as encoding/json sees it
-		var cd struct {
-			Type         string `json:"type"`
-			Challenge    string `json:"challenge"`
-			Origin       string `json:"origin"`
-			CrossOrigin  bool   `json:"crossOrigin"`
-			TokenBinding *struct {
-				Status string `json:"status"`
-				ID     string `json:"id"`
-			} `json:"tokenBinding"`
-		}
-		if err := json.Unmarshal(unhx(q["raw"].(string)), &cd); err != nil {
-			return nil
-		}
-		return M{"type": hx([]byte(cd.Type)), "challenge": hx([]byte(cd.Challenge)), "origin": hx([]byte(cd.Origin))}
 	case "sigVerify":
 		return M{"bool": sigVerify(q["scheme"].(string), crypto.Hash(num(q["hash"])), q["key"].(M), unhx(q["msg"].(string)), unhx(q["sig"].(string)))}
 	case "x509Parse":
